@@ -22,10 +22,10 @@ PY = '/venv/bin/python'
 TOL = 5e-5            # float32 accumulation in the extension
 
 
-def cfg(n1, n2, nc, nt, selfo, m1, m2, dev='none'):
+def cfg(n1, n2, nc, nt, selfo, m1, m2, dev='none', frames=2, calls=2):
     return '\n'.join(['CONSTANTS N1 = %d' % n1, 'N2 = %d' % n2, 'NC = %d' % nc, 'NT = %d' % nt, 'SelfOmega = %s' % ('TRUE' if selfo else 'FALSE'),
-                      'Mol1 <- %s' % m1, 'Mol2 <- %s' % m2, 'Deviation = "%s"' % dev, 'INIT Init', 'NEXT Next', 'CHECK_DEADLOCK FALSE',
-                      'INVARIANTS ResultIsDebyeSum RowsArePrivate ReduceAfterBarrier', 'PROPERTIES Terminates', ''])
+                      'Mol1 <- %s' % m1, 'Mol2 <- %s' % m2, 'Frames = %d' % frames, 'Calls = %d' % calls, 'Deviation = "%s"' % dev, 'INIT Init', 'NEXT Next', 'CHECK_DEADLOCK FALSE',
+                      'INVARIANTS ResultIsDebyeSum RowsArePrivate ReduceAfterBarrier CallReturnsAverage', 'PROPERTIES Terminates', ''])
 
 
 def fair_cfg(text):
@@ -63,15 +63,20 @@ out = {'chunks': [], 'omega': []}
 dom = Domain(dk=0.1, length=8)
 for n, c in job['chunks']:
     out['chunks'].append(np.asarray(D.Debyer(domain=dom, nthreads=c)._chunk(n, c)).tolist())
+objs = {}
 for case in job['cases']:
-    dom = Domain(dk=case['dk'], length=case['bins'])
     p1, p2 = np.array(case['p1']), np.array(case['p2'])
     m1, m2 = np.array(case['m1'], dtype=np.int64), np.array(case['m2'], dtype=np.int64)
     box = np.array(case['box'])
     res = []
     for nt in case['nthreads']:
+        # ONE Debyer object per (chunk count, grid), reused for every trajectory that comes along - the way the class
+        # documentation uses it (omega_1_1, then omega_1_2 from the same object)
+        key = (nt, case['dk'], case['bins'])
+        if key not in objs:
+            objs[key] = D.Debyer(domain=Domain(dk=case['dk'], length=case['bins']), nthreads=nt)
         try:
-            res.append(np.asarray(D.Debyer(domain=dom, nthreads=nt).calculate(p1, p2, m1, m2, box, bool(case['self'])), dtype=float).tolist())
+            res.append(np.asarray(objs[key].calculate(p1, p2, m1, m2, box, bool(case['self'])), dtype=float).tolist())
         except Exception as ex:
             res.append({'error': '%s: %s' % (type(ex).__name__, str(ex)[:200])})
     out['omega'].append(res)
@@ -154,10 +159,12 @@ def run(ctx):
         require_clean(res, 'Debyer N1=%d N2=%d NC=%d NT=%d' % (n1, n2, nc, nt))
         ctx.add_tlc('Debyer %s N1=%d N2=%d NC=%d NT=%d %s' % ('self' if selfo else 'cross', n1, n2, nc, nt, m1), res, exhaustive=True)
         chunks = chunks or res.records.get('CHUNKS', [None])[0]
-    res = run_tlc('MC_Debyer', cfg(4, 4, 6, 2, True, 'MolB', 'MolB', dev='shared_row').replace('PROPERTIES Terminates\n', ''), ctx.tmp, seed=ctx.seed, coverage=False)
-    if res.violated not in ('RowsArePrivate', 'ResultIsDebyeSum'):
-        raise MachineryError('deviation shared_row does not violate the statements: %s' % (res.violated or res.error))
-    ctx.stage('spec.deviation', deviation='shared_row', violated=res.violated)
+    for dev, expect in (('shared_row', ('RowsArePrivate', 'ResultIsDebyeSum')), ('no_frame_reset', ('ResultIsDebyeSum', 'CallReturnsAverage')),
+                        ('stale_accumulator', ('CallReturnsAverage',))):
+        res = run_tlc('MC_Debyer', cfg(4, 4, 6, 2, True, 'MolB', 'MolB', dev=dev).replace('PROPERTIES Terminates\n', ''), ctx.tmp, seed=ctx.seed, coverage=False)
+        if res.violated not in expect:
+            raise MachineryError('deviation %s does not violate the statements: %s' % (dev, res.violated or res.error))
+        ctx.stage('spec.deviation', deviation=dev, violated=res.violated)
     # ---- build
     bdir, log = build(ctx)
     if bdir is None:
